@@ -33,7 +33,8 @@ RULE = ("15 document shapes (external sources command/file/URL at top level and 
         "every dict of the document incl. the top level x caller opt-ins x environment values {unset,0,1,true,TRUE,yes} x "
         "load mode {from_dict, from_yaml, from_yaml+source_path, resolver file} x 9 vars-path kinds x base source {none, "
         "caller, derived}; plus seeded random document trees; distinct = distinct (document, caller, environment, mode); "
-        "non-trivial = the document contains at least one external-source or vars-using item")
+        "non-trivial = the document contains at least one external-source or vars-using item"
+        "; caller allow-lists incl. the empty one")
 ASSUMPTIONS = [
     "effects are observed through CPython audit events and marker files; an effect that raises no audit event and leaves no marker is invisible",
     "the sandbox has no network: URL sources are observed as connection attempts to a closed loopback port and always fail",
